@@ -91,6 +91,8 @@ func c15Accumulator(r *core.Run, p *core.Prog) {
 				e = x.X
 			case *ast.StarExpr:
 				e = x.X
+			case *ast.UnaryExpr:
+				e = x.X // &acc.Field handed to a helper and written through
 			default:
 				return core.ObjOf(info, e)
 			}
